@@ -17,6 +17,10 @@ CLAIMED = {
     "C07": ("proof", "_format_called_contests (raises iff contradictory/unknown, entry values; unbounded list lengths via the pointwise loop rule) and _adjust_called_contests (decision table) proved from the real AST", "A-REAL; numpy.isclose/maximum/minimum contracts; list membership as uninterpreted predicates", TECH, "DESIGN 4 C07"),
     "C09": ("proof", "iff-characterisation of the three frames, first-applicable-reason categories, joined table and derived quantities (0 instead of NaN/inf at zero denominators) proved on the real get_units, _get_non_modeled_units, _get_unexpected_units, __init__ and Estimandizer for both policies and three estimand sets", "A-REAL; V1; V2; outlier models abstracted by their contract (row filter of the frame they receive); np.isclose/nan_to_num contracts", TECH, "DESIGN 4 C09"),
     "C14": ("proof", "minimum/conf-frac/split arithmetic for all alpha and all n >= minimum (>=1 training row, >=1 calibration row, quantile < 1) and the gate (raises iff n < max minimum) proved from the real expressions/statements; totality of the nonparametric interval path above the gate (C03 unit)", "A-REAL; round-half-even exact; gate proved for 1..3 requested levels (configuration bound); slices of get_estimates executed with the prefix havoc'd", TECH, "DESIGN 4 C14"),
+    "C04": ("proof", "deterministic clause: the real _compute_population_correction returns the smallest calibration score whose baseline-weighted covered share exceeds q (sorted prefix sums), the interval is the raw pair widened by ONE correction on both sides, un-normalised, floored, rounded; split disjoint/exhaustive; own correction per estimand", "prefix-sum contract of sort_values+cumsum (Lean lemmas), np.quantile contract; the probabilistic coverage clause is NOT decided (see DESIGN section 5)", TECH + "; ghost instantiation of prefix-sum lemma instances", "DESIGN 4 C04"),
+    "C08": ("proof", "get_national_summary_estimates in all four modes: size check iff, lower <= pred <= upper, threshold mode within [base, base+total weight] and pred = base + weights of positive-margin contests, called contests contribute no uncertainty; typestate: only top-level aggregate calls write the state it reads (proved on the real aggregate functions for four aggregate lists)", "A-REAL; dictionary keys = contest names (precondition); None-weights variant not covered; argsort/gather contracts", TECH, "DESIGN 4 C08"),
+    "C13": ("proof", "schema of the merged unit/state tables for 1..3 estimands and non-ascending levels (key/category columns once, every level's column carries that level's interval), own conformal correction per estimand on one model object", "cross-request independence of VALUES for bootstrap/gaussian is not covered by a proof here (see DESIGN)", TECH, "DESIGN 4 C13"),
+    "C17": ("proof", "the nested compute_estimated_margin executed from the real AST: accepted histories are monotone with possible batches only, every whole percent 0..latest, imputed margin in [-1,1] (convex combination), first margin before the first observation, 0 at 0%, correction = final - imputed; discarded histories return 101 rows of missing values with the error type", "A-REAL (float columns; integer dtype truncation is outside the proof), V2, numpy positional contracts, lemma mono_of_succ", TECH + "; ghost instantiation, generalisation of nonlinear subterms", "DESIGN 4 C17"),
     "C20": ("proof", "the retry binds against the INSTALLED QuantileRegressionSolver.fit signature, repeats x, y, tau, weights, lambda_, intercept with normalize_weights=False, both failure kinds reach the single non-re-raising handler, every model fit goes through fit_model", "A-QR (how failures surface); numerical sameness of the re-solve not decided", TECH, "DESIGN 4 C20"),
 }
 REASON_WIP = "check under construction in this session: no contract-based check is registered yet (see DESIGN.md section 4 for the planned contracts)"
